@@ -187,6 +187,7 @@ func (a *Assembler) Run(ctx context.Context, targetFs fs.FS, parts []UnpackSpec,
 			}
 			return nil
 		}(); err != nil {
+			hk.Teardown()
 			return nil, err
 		}
 
